@@ -4,6 +4,7 @@ import (
 	"bytes"
 	"crypto/x509"
 	"encoding/asn1"
+	"encoding/json"
 	"encoding/pem"
 	"io"
 	"math/rand"
@@ -47,3 +48,5 @@ func tier() string {
 func asn1UnmarshalGeneralized(b []byte, t *time.Time) ([]byte, error) {
 	return asn1.UnmarshalWithParams(b, t, "generalized")
 }
+
+func jsonUnmarshalErr(raw string, v any) error { return json.Unmarshal([]byte(raw), v) }
